@@ -10,7 +10,7 @@ for p in mutants/${PROP}-*${PAT}*.patch seeded/*/patch.diff; do
   D=$(mktemp -d /var/tmp/rich-verif-XXXXXX)
   cp -r /repo/rich "$D/rich"
   if ! (cd "$D" && patch -s -p1 < "$OLDPWD/$p"); then echo "PATCH-FAILED $p"; rm -rf "$D"; continue; fi
-  DSIM_REPO="$D" timeout 900 bin/check "$PROP" --tier quick --budget "$BUDGET" --no-selftest --no-evidence > "$D/out.txt" 2>&1
+  DSIM_REPO="$D" timeout 900 bin/check "$PROP" --tier quick --budget "$BUDGET" --no-selftest --no-evidence --no-minimise > "$D/out.txt" 2>&1
   rc=$?
   sig=$(grep -A1 "^VIOLATION" "$D/out.txt" | grep -o "sig=[^ ]*" | tr '\n' ' ')
   runs=$(grep -o "runs=[0-9]*" "$D/out.txt" | tail -1)
